@@ -21,6 +21,7 @@ let show_out = function
   | RVal v -> "v " ^ string_of_n v
   | RNone -> "none"
   | RErr e -> "err " ^ string_of_n e
+  | RThrow -> "throw"
 let show_elem e = string_of_n e.val0 ^ (if e.moved then "m" else "")
 let show_cell f = function Dead -> "-" | Live h -> f h
 let show_vars f vs = String.concat " " (List.map (show_cell f) vs)
@@ -147,6 +148,9 @@ let body lines =
     | "umem" -> drive parse_umem mstep show_ms mfinish (mstate0 n) ops
     | "tup" -> List.iter (tuple_line k) ops
     (* initializer_list element category: outside the model (its element is a number); the harness oracle carries it *)
+    (* fault-injection sweep over every element construction point: oracle-only *)
+    | "thr" -> List.iter (fun l -> match words l with
+        | ["sweep"; _; _] -> print_string "thr ok 1\n" | _ -> print_string "badop\n") ops
     | "il" -> List.iter (fun l -> match words l with
         | ["fwd"; _; _] | ["one"; _] -> print_string "il ok\n" | _ -> print_string "badop\n") ops
     | _ -> print_string "badtype\n"
